@@ -74,11 +74,17 @@ Definition C16_prop_round (c : dcfg) (r : dround) : option string :=
     (orelse_s (match target_of c (d_cache r) with
                | Some t => C16_request_when_changed c t (d_events r) (d_result r)
                | None => None end)
-              (queue_clause r)).
+              (orelse_s (queue_clause r)
+                 (* the cache-fingerprint oracle: no object held by a shared informer cache changed during the sync *)
+                 (if String.eqb (d_mutated r) "" then None else Some ("shared-cache-mutated-" ++ d_mutated r)%string))).
 
 Definition C16_check (c : dcase) : verdict :=
   if negb (forallb round_in_domain (d_rounds c)) then SKIP "target-annotation-holds-embedded-json" else
   (* 1. the property on what the implementation did *)
+  match (if mem_str "failed-write-then-retry" (d_flags c)
+         then C16_retry_rounds (d_cfg c) (map (fun r => (d_cache r, d_events r, d_result r)) (d_rounds c)) else None) with
+  | Some w => PROPFAIL w
+  | None =>
   match first_dround_fail (C16_prop_round (d_cfg c)) (d_rounds c) 0 with
   | Some w => PROPFAIL w
   | None =>
@@ -88,6 +94,7 @@ Definition C16_check (c : dcase) : verdict :=
       | Some w => DIVERGE w
       | None => OK
       end
+  end
   end.
 
 (* ---------- C06, decorator leg: the update strategy of the attachment rule decides the verb ---------- *)
